@@ -4,3 +4,5 @@ import Proofs.SkyEstimate
 import Proofs.RealScalar
 import Proofs.Names
 import Proofs.ProbReal
+import Proofs.RenderReal
+import Proofs.RenderLinear
